@@ -16,6 +16,14 @@ CLAIMED = {
     'C13': ('Coq proof that reduplicate preserves shapes, yields pairwise distinct identities and is the identity on trees + extracted-model correspondence on DAGs',
             'Theorems about a Gallina model of nodes.reduplicate over all lists with arbitrary sharing; tied to the code by correspondence on generated DAGs (shared leaves, subtrees, empty lists).',
             'Trusted: Coq kernel, extraction, OCaml driver, python harness. Assumes all identities of the input are <= the allocator counter.', 'DESIGN.md section 4, C13'),
+    'C08': ('Coq proof that the scanner automaton computes the standard nesting structure of any legally separated lexeme sequence + extracted-model/spec correspondence',
+            'reader_standard/literal_opaque over all lexeme sequences and separators, about a Gallina model of parse_smtlib and an independent reader specification; '
+            'tied to the code by systematic pair enumeration and random sequences (implementation vs extracted specification vs model).',
+            'Trusted: Coq kernel, extraction, OCaml driver, python harness; the spec of the standard reader (Spec/StdReader.v).', 'DESIGN.md section 4, C08'),
+    'C09': ('Coq proof that the decision code translated from checker.py on every run computes the documented acceptance rule + real subprocess correspondence',
+            'accept_iff over all option combinations and outcomes about Gallina code regenerated from the AST of matches_golden/check (fail-closed translator); '
+            'additionally exhaustive/real-subprocess correspondence with a scripted command (argv, extension, --unchecked).',
+            'Trusted: Coq kernel, the ast translator, extraction, python harness. Assumes configured match strings are non-empty.', 'DESIGN.md section 4, C09'),
 }
 ALL = ['C%02d' % i for i in range(1, 19)]
 NOT_APPLICABLE = {p: PARTIAL for p in ALL if p not in CLAIMED}
